@@ -21,7 +21,7 @@ T = {
   rule="case = (corpus incl. lines >128KiB, matcher kind+pattern, config, consumer hold mode, time-flush pauses); non-trivial when >=1 match with >=2 groups was held across a later buffer regrowth or batch; distinct by hash",
   mins={"matches_held": {"quick": 2000, "thorough": 20000}}),
  "C03": dict(
-  technique="runtime monitoring: differential CLI runs (reference aggregation by construction + metamorphic identity across tuning flags/GOMAXPROCS/file division), CSV parsed back with encoding/csv",
+  technique="runtime monitoring: differential CLI runs (reference aggregation by construction + metamorphic identity across tuning flags/GOMAXPROCS/file division/arrival timing of piped input), CSV parsed back with encoding/csv",
   text="The real binary is run 7+ ways per generated corpus; CSV, snapshot and exit status must equal the harness' independently computed aggregation and be identical across variants.",
   note="Status footer line (rate, file counter) is cut before comparison; analyze compared numerically when order can vary.",
   rule="case = (aggregator command, corpus with hostile keys, variant set); non-trivial when the corpus has >=2 keys and >=2 variants ran; distinct by hash of command+corpus",
@@ -39,7 +39,7 @@ T = {
   rule="case = (pipeline config, corpus, delay schedule / CLI command); non-trivial when >=1 intermediate render had samples before and after it; distinct by hash of config+schedule+observed interleaving signature",
   mins={"intermediate_renders_between_samples": {"quick": 20, "thorough": 200}}),
  "C06": dict(
-  technique="runtime monitoring: CLI runs over generated directory trees and argument vectors with injected single-input faults (missing, EISDIR, truncated/corrupt gzip, strace read-error injection); mention-count multiset and exit-status oracle",
+  technique="runtime monitoring: CLI runs over generated directory trees and argument vectors with injected single-input faults (missing, EISDIR, truncated/corrupt gzip, strace read-error injection in both tiers, unopenable followed paths); mention-count multiset and exit-status oracle",
   text="The real binary reads generated trees through every argument form; output lines name their source and line, so once-per-mention, faithful decoding, isolation of a failing input and the exit-status function are decided per run.",
   note="Permission faults cannot be produced (root); compress/gzip is trusted for the prefix a damaged member yields.",
   rule="case = (tree, argument vector, flags, fault); non-trivial when >=2 inputs are read and (a fault is present or a non-literal argument form is used); distinct by hash",
@@ -63,7 +63,7 @@ T = {
   rule="case = (string | tree+layout | mutation); non-trivial when the string has >=1 escaped rune or the tree has >=1 call; distinct by template text",
   mins={"templates": {"quick": 20000, "thorough": 200000}}),
  "C10": dict(
-  technique="runtime monitoring: differential evaluation optimised vs unoptimised, funcs-file call vs inlined body, concurrent vs sequential (race flavour in thorough)",
+  technique="runtime monitoring: differential evaluation optimised vs unoptimised, funcs-file call vs inlined body (tree-level and text-level layouts with escapes and arbitrary continuation points), CLI call vs inline under global flags, concurrent vs sequential (race flavour in thorough), clock keywords bracketed by harness clock readings",
   text="Generated templates over deterministic helpers are compiled both ways and evaluated on the same contexts; generated funcs files are loaded and each call compared with the substituted body; 16 goroutines share one compiled expression.",
   note="The unoptimised / inlined form is the reference; helpers with file-system side effects excluded.",
   rule="case = (template, context) or (funcs file layout, call site, context); non-trivial when the template has >=1 call with a constant sub-expression or the call passes >=1 argument; distinct by hash",
@@ -87,13 +87,13 @@ T = {
   rule="case = (sort mode, key/value set, permutation set); non-trivial when the set has >=3 keys; distinct by mode+sorted key set",
   mins={"sorts": {"quick": 5000, "thorough": 50000}}),
  "C14": dict(
-  technique="runtime monitoring: structural screen oracles over VirtualTerm output for generated aggregator states, scaler laws over int64 triples, hang evidence by stack sampling",
+  technique="runtime monitoring: structural screen oracles over VirtualTerm output for generated aggregator states, scaler laws over int64 triples, formatter purity/meaning laws (shadow formatter inside renderer cases), end-to-end --format wiring on the CLI, hang evidence by stack sampling",
   text="Renderers are driven with states from sample histories (zero/negative/huge/equal values, hostile keys, limits 0..n) under colour/unicode on/off; output lines are parsed and judged structurally; scaler monotonicity/bounds over dense triples.",
   note="Glyph choice and colours are not judged.",
   rule="case = (renderer, state history, limits, scale, colour/unicode); non-trivial when the state has >=2 keys/cells; distinct by hash",
   mins={"renders": {"quick": 2000, "thorough": 20000}}),
  "C15": dict(
-  technique="runtime monitoring: history + executable model (self-describing appended chunks vs delivered stream), bounded-progress watchdog with lost-wake-up evidence, delay hooks in the notify/poll loops",
+  technique="runtime monitoring: history + executable model (self-describing appended chunks vs delivered stream), bounded-progress watchdog with lost-wake-up evidence (reader level) and structural no-goroutine-left evidence (batch level), delay hooks in the notify/poll loops",
   text="A writer performs generated append/pause/remove/re-create histories against the real follow readers (notify and poll) with slow consumers and injected delays; the delivered byte stream must equal the model at quiescence.",
   note="Eventually = delivered within the watchdog after the history ends; expiry alone is inconclusive.",
   rule="case = (reader kind, reopen, tail, history, consumer/delay schedule); non-trivial when the history has >=2 appends; distinct by hash",
@@ -123,7 +123,7 @@ T = {
   rule="case = (formula, binding); non-trivial when the formula has >=1 binary operator; distinct by formula text",
   mins={"formulas": {"quick": 5000, "thorough": 100000}}),
  "C20": dict(
-  technique="runtime monitoring: VT100-subset emulator interprets the bytes the real TermWriter wrote; expected screen model; pty end-to-end in thorough",
+  technique="runtime monitoring: VT100-subset emulator interprets the bytes the real TermWriter wrote; expected screen model; end-to-end on a pty, a pipe and a regular-file sink (both tiers)",
   text="Generated update histories are written through the real TermWriter/BufferedTerm with stdout redirected; the emulator's final screen, cursor position and visibility are compared with the model; width trimming judged on every written line.",
   note="Needs the verif-only VerifSetTermSize hook; emulator is lenient on pending-wrap.",
   rule="case = (width, trim, history of (line,text) updates); non-trivial when >=2 updates hit the same line or a text exceeds the width; distinct by hash",
